@@ -293,6 +293,77 @@ def clause_f(facts, rep, min_leaves=1):
     rep.require(n >= min_leaves, 'C15.f: leaf to_bitmask implementations found: %d' % n)
 
 
+def clause_g(facts, rep):
+    """Masks assembled from several movemask / to_bitmask results keep every part in its own bit range: the
+    expression that combines them is evaluated (sv/minterp.py) with each part replaced by a chosen value - including
+    values with their top bit set, which sign-extend when a 32-bit intermediate is widened - and must equal the
+    positional concatenation part_k << (k * width)."""
+    from ..minterp import Interp, Unsupported
+    n = 0
+    M = (1 << 64) - 1
+    for f in facts.functions:
+        calls = [e for _, _, _, e in f.walk() if e.get('k') == 'call']
+        mm = [e for e in calls if (e.get('cname') or '').startswith('_mm') and 'movemask' in (e.get('cname') or '')]
+        sub = [e for e in calls if e.get('cname') == 'to_bitmask']
+        parts = None
+        if f.short == 'GetNonSpaceBits' and len(mm) >= 2:
+            parts, width, negate, leaf = len(mm), (32 if '256' in mm[0]['cname'] else 16), True, 'movemask'
+        elif f.short == 'to_bitmask' and len(sub) >= 2:
+            parts, width, negate, leaf = len(sub), 64 // len(sub), False, 'to_bitmask'
+        if not parts:
+            continue
+        rep.fn(f)
+        top = 1 << (width - 1)
+        full = (1 << width) - 1
+        patterns = [[0] * parts, [full] * parts]
+        for k in range(parts):
+            for v in (top, full, 1, top | 1):
+                p_ = [0] * parts
+                p_[k] = v
+                patterns.append(p_)
+                p2 = [full] * parts
+                p2[k] = v ^ full
+                patterns.append(p2)
+        bad = None
+        try:
+            for pat in patterns:
+                order = []
+
+                class _It(Interp):
+                    def ev(self, e, env, members):
+                        if e.get('k') == 'call':
+                            nm = e.get('cname') or ''
+                            if (leaf == 'movemask' and nm.startswith('_mm') and 'movemask' in nm) or (leaf == 'to_bitmask' and nm == 'to_bitmask'):
+                                key = show(e)
+                                if key not in order:
+                                    order.append(key)
+                                v = pat[order.index(key)]
+                                if leaf == 'movemask':
+                                    # the intrinsic returns a signed int
+                                    return v - (1 << 32) if (width == 32 and v >> 31) else v
+                                return v
+                            if nm.startswith('_mm'):
+                                return 0            # vector values are opaque
+                        return Interp.ev(self, e, env, members)
+                got = _It(f, facts).run({p_['id']: 4096 for p_ in f.params}, {})[0]
+                if got is None or len(order) != parts:
+                    raise Unsupported('parts evaluated: %d of %d' % (len(order), parts))
+                want = 0
+                for k, v in enumerate(pat):
+                    want |= v << (k * width)
+                if negate:
+                    want = ~want & M
+                if (got & M) != (want & M):
+                    bad = 'parts %s -> 0x%016x, expected 0x%016x' % ([hex(x) for x in pat], got & M, want & M)
+                    break
+        except Unsupported as ex:
+            raise AnalysisBroken('C15.g: %s not evaluable: %s' % (f.name[:80], ex))
+        n += 1
+        rep.check(bad is None, 'E5.mask-compose', f.name.split('(')[0][:90], '%d x %d-bit %s results are concatenated positionally (%d patterns)' % (parts, width, leaf, len(patterns)), f.loc,
+                  (bad or '') + ' - a part leaking into the bits of another one hides or invents matches in the neighbouring lanes', facts.config)
+    return n
+
+
 def run(rep, tier):
     f1 = get_facts('K1')
     f3 = get_facts('K3')
@@ -306,6 +377,9 @@ def run(rep, tier):
     clause_e(f4, rep)
     clause_f(f1, rep)
     clause_f(f3, rep)
+    n1 = clause_g(f1, rep)
+    n3 = clause_g(f3, rep)
+    rep.require(n1 >= 1 and n3 >= 1, 'C15.g: composed masks found: avx2 %d, sse %d' % (n1, n3))
     rep.trust('clang 14 front end', 'Intel semantics of the SSE compare / movemask intrinsics', 'simd wrapper contracts (== and unsigned <= followed by to_bitmask)')
     rep.assumptions += [
         'decides structural parity of the three x86 configurations; in the thorough tier every other property re-runs its rules on K3 (static SSE) and K4 (dynamic dispatch)',
